@@ -42,11 +42,18 @@ def rule_TR1(rep, prog, ex):
         new = fn.inst(x.ops[2])
         if new is not None and new.op == "add" and new.ops[0] == x.ops[1] and new.ops[1][0] == "c" and new.ops[1][1] == 1:
             # guard: expected < 0 on every path to the cmpxchg: the branch into x's block tests slt 0 on the expected value
+            # (the loop may be `while (orig < 0) { cas }` - one test on the loop-carried value - or rotated `if (orig < 0) do { cas } while (orig < 0)` -
+            # one test per entering edge on the value that edge carries into the loop)
             preds_ok = True
+            exp = fn.inst(x.ops[1])
             for p in x.block.preds:
+                want = x.ops[1]
+                if exp is not None and exp.op == "phi" and exp.block is x.block:
+                    inc = [v for v, frm in exp.ops if frm == p.id]
+                    want = inc[0] if inc else want
                 t = p.term
                 c = fn.inst(t.ops[0]) if t.ops else None
-                if not (t.op == "br" and c is not None and c.op == "icmp" and c.d["pred"] == "slt" and c.ops[0] == x.ops[1]
+                if not (t.op == "br" and c is not None and c.op == "icmp" and c.d["pred"] == "slt" and list(c.ops[0][:2]) in (list(want[:2]), list(x.ops[1][:2]))
                         and c.ops[1][0] == "c" and c.ops[1][1] == 0 and t.d["succs"][0] == x.block.id):
                     preds_ok = False
             ok = preds_ok
